@@ -13,6 +13,7 @@ from xknx.telegram.apci import GroupValueResponse, GroupValueWrite
 
 PROPERTY = "C07"
 MODULES = ["XknxVerif.Props.C07"]
+DRIVE_PROCS = 8
 CASE_TIMEOUT = 20.0
 RULE = ("every concrete DPT class (DPTBase.dpt_class_tree) x {all 64 DPTBinary values, the empty array, all 256 one-octet arrays, "
         "two-octet arrays (all 65536 for classes with a 2-octet payload in both tiers and for every class in the thorough tier; "
